@@ -6,11 +6,12 @@
 export GOFLAGS=-mod=mod GOPROXY=off GOSUMDB=off GOTOOLCHAIN=local
 src=$1; id=$2; shift 2
 out=/verif/seeded/$id; mkdir -p $out
-cp $src/patch.diff $src/demo_test.go $src/meta.json $out/ 2>/dev/null
+cp $src/patch.diff $src/demo_test.go $src/meta.json $src/patch_ported_to_current_tree.diff $out/ 2>/dev/null
+patch=$out/patch.diff; [ -f $out/patch_ported_to_current_tree.diff ] && patch=$out/patch_ported_to_current_tree.diff
 sw=$(mktemp -d /tmp/sw_XXXXXX); rmdir $sw
 git -C /repo worktree add -q --detach $sw HEAD || exit 2
 res=$out/confirm.txt; : > $res
-( cd $sw && git apply $out/patch.diff && echo "patch applies: yes" >> $res || { echo "patch applies: NO" >> $res; } 
+( cd $sw && git apply $patch && echo "patch applies: yes" >> $res || { echo "patch applies: NO" >> $res; } 
   go build ./... >> $res 2>&1 && echo "build: ok" >> $res || echo "build: FAIL" >> $res
   if go test -vet=off -count=1 ./... > /tmp/seedtest.$$ 2>&1; then echo "existing tests with change: pass" >> $res; else echo "existing tests with change: FAIL" >> $res; tail -5 /tmp/seedtest.$$ >> $res; fi
   cp $out/demo_test.go ./zz_seed_demo_test.go
@@ -23,7 +24,7 @@ cat $res
 # run the checks against the change
 cd /verif
 if ! git -C /repo diff --quiet; then echo "/repo has uncommitted changes; refusing"; exit 2; fi
-git -C /repo apply $out/patch.diff || { echo "patch does not apply to /repo" | tee -a $res; exit 2; }
+git -C /repo apply $patch || { echo "patch does not apply to /repo" | tee -a $res; exit 2; }
 : > $out/checks.txt
 for p in "$@"; do
   ./check.sh $p quick > /tmp/seedchk.$$ 2>&1; rc=$?
